@@ -70,6 +70,7 @@ type c18Gen struct {
 	bigGroup    bool
 	nested      bool
 	marked      bool
+	unknownElems bool
 }
 
 func iterRef(iter, field string) *gen.Node {
@@ -200,6 +201,32 @@ func (g *c18Gen) collection(iter string) (string, *gen.Node, []dElem, bool) {
 			v = cty.ObjectVal(m)
 		}
 	}
+	if !objElems && n > 0 && (kind == 0 || kind == 1 || kind == 3 || kind == 4) && gen.Chance(r, 0.12) {
+		// a known collection one of whose elements is unknown: still one block per element
+		g.unknownElems = true
+		switch kind {
+		case 0:
+			vs := v.AsValueSlice()
+			i := r.Intn(len(vs))
+			vs[i] = cty.UnknownVal(vs[i].Type())
+			v = cty.TupleVal(vs)
+		case 1:
+			vs := v.AsValueSlice()
+			vs[r.Intn(len(vs))] = cty.UnknownVal(v.Type().ElementType())
+			v = cty.ListVal(vs)
+		case 3:
+			m := v.AsValueMap()
+			ks := gen.SortedKeys(m)
+			m[gen.Pick(r, ks)] = cty.UnknownVal(v.Type().ElementType())
+			v = cty.MapVal(m)
+		default:
+			m := v.AsValueMap()
+			ks := gen.SortedKeys(m)
+			k := gen.Pick(r, ks)
+			m[k] = cty.UnknownVal(m[k].Type())
+			v = cty.ObjectVal(m)
+		}
+	}
 	var elems []dElem
 	for it := v.ElementIterator(); it.Next(); {
 		k, ev := it.Element()
@@ -207,7 +234,7 @@ func (g *c18Gen) collection(iter string) (string, *gen.Node, []dElem, bool) {
 	}
 	// literal in the source, or through a scope variable (lists, sets and maps exist only that way)
 	ty := v.Type()
-	viaVar := ty.IsListType() || ty.IsSetType() || ty.IsMapType() || gen.Chance(r, 0.3)
+	viaVar := ty.IsListType() || ty.IsSetType() || ty.IsMapType() || !v.IsWhollyKnown() || gen.Chance(r, 0.3)
 	if viaVar {
 		name := fmt.Sprintf("coll%d", g.nGroups)
 		if gen.Chance(r, 0.3) {
@@ -361,8 +388,20 @@ func renderD(b *dBody, indent string, sb *strings.Builder) {
 type iterEnv struct {
 	name string
 	k, v cty.Value
+	// ref names a scope variable holding v when v cannot be spelled as a literal
+	ref  string
 	next *iterEnv
 }
+
+// valNode spells the bound element's value.
+func (e *iterEnv) valNode() *gen.Node {
+	if e.ref != "" {
+		return gen.Var(e.ref, e.v.Type())
+	}
+	return gen.LitNode(e.v)
+}
+
+var c18RefCounter int
 
 func (e *iterEnv) lookup(name string) *iterEnv {
 	for x := e; x != nil; x = x.next {
@@ -383,12 +422,15 @@ func subst(n *gen.Node, env *iterEnv) *gen.Node {
 			if n.Name == "key" {
 				return gen.LitNode(b.k)
 			}
-			return gen.LitNode(b.v)
+			return b.valNode()
 		}
 	}
 	if n.Kind == gen.KVar {
 		// a bare reference to a name that an iterator shadows is the iterator object
 		if b := env.lookup(n.Name); b != nil {
+			if b.ref != "" {
+				return &gen.Node{Kind: gen.KObject, Keys: []gen.ObjKey{{Form: gen.KeyIdent, Name: "key"}, {Form: gen.KeyIdent, Name: "value"}}, Kids: []*gen.Node{gen.LitNode(b.k), b.valNode()}}
+			}
 			return gen.LitNode(cty.ObjectVal(map[string]cty.Value{"key": b.k, "value": b.v}))
 		}
 	}
@@ -424,6 +466,23 @@ func (b *dBody) hasAttrs() bool {
 		}
 	}
 	return false
+}
+
+// topLevelOnly reports whether g is a top-level item of the tree and the only
+// top-level item of its block type.
+func topLevelOnly(tree *dBody, g *dGroup) bool {
+	found := false
+	for _, it := range tree.Items {
+		switch {
+		case it.Group == g:
+			found = true
+		case it.Group != nil && it.Group.Type == g.Type:
+			return false
+		case it.Block != nil && it.Block.Type == g.Type:
+			return false
+		}
+	}
+	return found
 }
 
 // c18Visited counts how often writeOut reached each group (also skipped ones).
@@ -475,6 +534,13 @@ func writeOut(b *dBody, env *iterEnv, ctx *hcl.EvalContext, skip map[*dGroup]boo
 			}
 			for _, el := range elems {
 				inner := &iterEnv{name: g.Iter, k: el.k, v: el.v, next: env}
+				if !el.v.IsWhollyKnown() {
+					// not spellable as a literal: the written-out form refers to a
+					// scope variable that holds exactly this value
+					c18RefCounter++
+					inner.ref = fmt.Sprintf("unkel%d", c18RefCounter)
+					ctx.Variables[inner.ref] = el.v
+				}
 				var labels []string
 				for _, l := range g.Labels {
 					src := gen.RenderExpr(subst(l, inner), &gen.Layout{})
@@ -582,6 +648,8 @@ type c18Prog struct {
 
 // c18Build generates one body with dynamic blocks and a spec for it (used by C17).
 func c18Build(r *rand.Rand) *c18Prog {
+	c18RefCounter = 0
+	shapeMode = false
 	sc := gen.NewScope(r, gen.ValOpts{StrLevel: 1})
 	sc.Set("f", cty.BoolVal(gen.Chance(r, 0.5)))
 	g := &c18Gen{r: r, sc: sc, labelCounts: map[string]int{}}
@@ -605,7 +673,41 @@ func c18Build(r *rand.Rand) *c18Prog {
 	return &c18Prog{dsrc: dsb.String(), spec: g.specForW([]*gen.Body{wbody, shape}, map[string]int{}), sc: sc}
 }
 
+// knownLeaf finds a known, non-null primitive under v that does not come from a
+// block label (label attributes are named label<i>).
+func knownLeaf(v cty.Value, path string) string {
+	v, _ = v.Unmark()
+	if !v.IsKnown() || v.IsNull() {
+		return ""
+	}
+	ty := v.Type()
+	switch {
+	case ty.IsPrimitiveType():
+		return path + " = " + valStr(v)
+	case ty.IsObjectType():
+		for _, name := range gen.SortedKeys(ty.AttributeTypes()) {
+			if strings.HasPrefix(name, "label") {
+				continue
+			}
+			if m := knownLeaf(v.GetAttr(name), path+"."+name); m != "" {
+				return m
+			}
+		}
+	case ty.IsTupleType() || ty.IsListType() || ty.IsSetType() || ty.IsMapType():
+		for it := v.ElementIterator(); it.Next(); {
+			k, ev := it.Element()
+			if m := knownLeaf(ev, path+"["+valStr(k)+"]"); m != "" {
+				return m
+			}
+		}
+	}
+	return ""
+}
+
 func c18Case(c *core.Case) {
+	c18RefCounter = 0
+	shapeMode = false
+	c18Visited = nil
 	r := c.Rng
 	sc := gen.NewScope(r, gen.ValOpts{StrLevel: 1})
 	sc.Set("f", cty.BoolVal(gen.Chance(r, 0.5)))
@@ -717,6 +819,16 @@ func c18Case(c *core.Case) {
 							if reached > 0 && dval.GetAttr(name).IsWhollyKnown() && unkGroup.Content.hasAttrs() {
 								c.Violation("unknown-for_each/affected-part-known", fmt.Sprintf("with an unknown for_each for %q (reached %d times), the affected part %q decodes to the wholly known value %s", unkGroup.Type, reached, name, valStr(dval.GetAttr(name))), nil)
 								return
+							}
+							// with the unknown group at the top level and no static block of its
+							// type beside it, nothing inside the affected part can be asserted:
+							// every attribute value in it (at any depth) must be unknown
+							if topLevelOnly(tree, unkGroup) {
+								if leaf := knownLeaf(dval.GetAttr(name), name); leaf != "" {
+									c.Violation("unknown-for_each/known-value-inside-affected-part", fmt.Sprintf("with an unknown for_each for %q, the affected part asserts a value although the number of blocks (possibly none) is unknown: %s\nwhole part: %s", unkGroup.Type, leaf, valStr(dval.GetAttr(name))), nil)
+									return
+								}
+								c.Count("unknown-for_each:no-known-value-inside")
 							}
 							if reached > 0 && unkGroup.Content.hasAttrs() {
 								c.Count("unknown-for_each:affected-part-unknown")
